@@ -946,7 +946,12 @@ spifconf_parse_line(FILE * fp, spif_charptr_t buff)
 
               spifconf_shell_expand((spif_charptr_t) buff);
               path = spiftool_get_word(2, buff + 1);
-              if (!(fp = spifconf_open_file(path))) {
+              if (fstate_idx == (unsigned char) -1) {
+                  /* The file stack index is 8 bits wide; one more level would wrap it to 0. */
+                  libast_print_error("Parsing file %s, line %lu:  %%include nested too deeply, ignoring %s\n", file_peek_path(),
+                              file_peek_line(), path);
+                  FREE(path);
+              } else if (!(fp = spifconf_open_file(path))) {
                   libast_print_error("Parsing file %s, line %lu:  Unable to locate %%included config file %s (%s), continuing\n", file_peek_path(),
                               file_peek_line(), path, strerror(errno));
                   FREE(path);
